@@ -89,6 +89,48 @@ func (ex *Exec) sentinelErr(name string) Value {
 // OpaqueIface is the exported form of opaqueIface.
 func (ex *Exec) OpaqueIface(name string, t types.Type) Value { return ex.opaqueIface(name, t) }
 
+// ---- CID accessors ---------------------------------------------------------------------------
+//
+// A CID is an opaque identity (one atom, the hidden `str` field). Code that looks INSIDE a CID
+// (Hash, Type/codec, Version, Prefix) gets a refinement: identity = (codec, multihash), i.e. each
+// CID atom s is given two further inputs s@codec (64-bit) and s@hash (an atom standing for the
+// multihash bytes) with s1 == s2 <=> (codec1 == codec2 and hash1 == hash2) for all CID atoms the
+// accessors have been applied to; version is 1. Constant atoms (zz.CidFromAtom("x")) are raw-codec
+// CIDs whose hash is the atom itself - exactly what the native zz.Cid builds from these inputs, so
+// counterexamples replay.
+func (ex *Exec) cidParts(s *Term) (codec, hash *Term) {
+	if s.Op == OIte {
+		c1, h1 := ex.cidParts(s.Args[1])
+		c2, h2 := ex.cidParts(s.Args[2])
+		return ex.ts.Ite(s.Args[0], c1, c2), ex.ts.Ite(s.Args[0], h1, h2)
+	}
+	if p, ok := ex.cidAtoms[s]; ok {
+		return p[0], p[1]
+	}
+	if ex.cidAtoms == nil {
+		ex.cidAtoms = map[*Term][2]*Term{}
+	}
+	if s.Op == OVar {
+		codec = ex.fresh(s.S+"@codec", BV(64))
+		hash = ex.fresh(s.S+"@hash", AtomSort)
+	} else if s.IsConst() {
+		codec = ex.ts.BVConst(0x55, 64) // cid.Raw
+		hash = s
+	} else {
+		codec = ex.ts.App("cidcodec", BV(64), s)
+		hash = ex.ts.App("cidhash", AtomSort, s)
+	}
+	for _, o := range ex.cidOrder {
+		p := ex.cidAtoms[o]
+		same := ex.ts.And(ex.ts.Eq(codec, p[0]), ex.ts.Eq(hash, p[1]))
+		ex.axioms++
+		ex.addPC(ex.ts.Eq(ex.ts.Eq(s, o), same))
+	}
+	ex.cidAtoms[s] = [2]*Term{codec, hash}
+	ex.cidOrder = append(ex.cidOrder, s)
+	return codec, hash
+}
+
 // ByteSlice builds a concrete []byte value (for read-only globals of dependencies).
 func (ex *Exec) ByteSlice(b []byte) Value {
 	out := make([]Value, len(b))
@@ -525,6 +567,36 @@ func BaseIntrinsics() map[string]IntrinsicFn {
 		return Struct{ex.fresh(argStr(a[0])+".str", AtomSort)}
 	}
 	m[ZZ+".CidFromAtom"] = func(ex *Exec, fr *frame, a []Value) Value { return Struct{a[0]} }
+	cidStr := func(v Value) *Term { return v.(Struct)[0].(*Term) }
+	m["(github.com/ipfs/go-cid.Cid).Hash"] = func(ex *Exec, fr *frame, a []Value) Value {
+		_, h := ex.cidParts(cidStr(a[0]))
+		return h // an atom standing for the multihash bytes (only equality is interpreted)
+	}
+	m["(github.com/ipfs/go-cid.Cid).Type"] = func(ex *Exec, fr *frame, a []Value) Value {
+		c, _ := ex.cidParts(cidStr(a[0]))
+		return c
+	}
+	m["(github.com/ipfs/go-cid.Cid).Version"] = func(ex *Exec, fr *frame, a []Value) Value { return ex.ts.BVConst(1, 64) }
+	m["bytes.Equal"] = func(ex *Exec, fr *frame, a []Value) Value {
+		x, okx := a[0].(*Term)
+		y, oky := a[1].(*Term)
+		if okx && oky {
+			return ex.ts.Eq(x, y)
+		}
+		xs, okx := a[0].([]Value)
+		ys, oky := a[1].([]Value)
+		if okx && oky {
+			if len(xs) != len(ys) {
+				return ex.ts.False()
+			}
+			acc := ex.ts.True()
+			for i := range xs {
+				acc = ex.ts.And(acc, ex.ts.Eq(xs[i].(*Term), ys[i].(*Term)))
+			}
+			return acc
+		}
+		panic("bytes.Equal: unsupported operands")
+	}
 	m[ZZ+".Node"] = func(ex *Exec, fr *frame, a []Value) Value {
 		return Iface{T: ex.opaqueNodeType(), V: Struct{ex.fresh(argStr(a[0]), AtomSort)}}
 	}
